@@ -394,8 +394,8 @@ def addSignedMul (W : Nat) : Nat → MulKernel
 
 -- ---------------------------------------------------------------- squaring (sqr/simple.rs, sqr/mod.rs)
 
-/-- `MAX_LEN_SIMPLE` in integer/src/sqr/mod.rs (not among the regenerated constants yet) -/
-def sqrMaxLenSimple : Nat := 30
+/-- `MAX_LEN_SIMPLE` in integer/src/sqr/mod.rs (regenerated from source on every run) -/
+def sqrMaxLenSimple : Nat := Dashu.Gen.sqr_MAX_LEN_SIMPLE
 
 /-- first loop of `sqr::simple::square` (triangular part).  `s` is the suffix `b[2i..]` of the output,
     `m :: aRest = a[i..]`, `c0` the pending carry bit for `s[a_cur.len()]`.  In suffix coordinates
